@@ -36,7 +36,7 @@ STUBS = ['ScriptedServer socket (SMTP/LMTP framing automaton: one scripted '
 ASSUMPTIONS = ['reply text first characters are not white space']
 CELL_BUDGET_S = {'quick': 240, 'thorough': 2400}
 SAMPLE_P = 0.02
-MAX_WITNESSES = 6
+MAX_WITNESSES = 10
 MAX_DECISIONS = 40000
 
 
